@@ -2,6 +2,7 @@ import FluteModel.Recv
 import FluteModel.Lemmas.RecvTotal
 import FluteModel.Lemmas.RecvToy
 import FluteModel.Lemmas.RecvGrowth
+import FluteModel.Lemmas.RecvMiniLaw
 /-
   C04 - untrusted input, SESSION-LEVEL receiver (`Receiver::push_data` / `push` / `cleanup`):
   no parsed packet, no XML-parser answer, no history can make a receiver call panic; a datagram the
@@ -139,6 +140,13 @@ theorem registries_grow_by_one (I : ObjIface σ) (s s' : State σ) (op : Op) (r 
     (∀ now stale, op = .cleanup now stale →
       s'.objects.length ≤ s.objects.length ∧ s'.fdtReceivers.length ≤ s.fdtReceivers.length) :=
   step_growth I s s' op r evs h
+
+/-- `recv_history_total` for the validated executable model (`Mini` object of the driver): its
+    `CompleteSound` contract is a theorem (`Lemmas/RecvMiniLaw.lean`), so no hypothesis on the
+    object is left. -/
+theorem recv_history_total_driver_model (cfg : Config) (ops : List Op) (hops : ∀ op ∈ ops, OpOK op) :
+    ∃ s' out, run Mini.iface (State.init cfg) ops = some (s', out) :=
+  recv_history_total Mini.iface Mini.completeSound cfg ops hops
 
 /-! ### non-vacuity, and why the clock hypothesis is there -/
 
